@@ -319,9 +319,11 @@ class Device(pn53x.Device):
         if fifo_level == 0:
             raise nfc.clf.TimeoutError
         data = self.chipset.read_register(*(fifo_level * ["CIU_FIFOData"]))
+        if fifo_level == 1:
+            data = [data]
         data = ''.join(["{:08b}".format(octet)[::-1] for octet in data])
         data = [int(data[i:i+8][::-1], 2) for i in range(0, len(data)-8, 9)]
-        if self.check_crc_b(data) is False:
+        if len(data) < 3 or self.check_crc_b(data) is False:
             raise nfc.clf.TransmissionError("crc_b check error")
         return bytearray(data[0:-2])
 
